@@ -516,11 +516,96 @@ def ob_validate_dirs():
     return h
 
 
+def ob_kill_wipe():
+    """`meson setup --wipe` killed at any of its file-system steps - the real MesonApp.__init__ (validate_dirs, backup of cmd_line.txt and machine files to a
+    temporary directory, read_cmd_line_file, removal of every entry of the build directory, add_ignore_files, restore) on a real scratch directory; every
+    mutating call it issues is one step and `kill_at` is a SYMBOLIC step number. The recovery is the same command again: it must not be refused or end in a
+    Python error, and the recorded command line it re-derives the configuration from still names the value from before"""
+    def h():
+        import tempfile, shutil, argparse, glob
+        from mesonbuild import msetup, mesonlib
+        tmp = tempfile.mkdtemp(prefix='c09wipe')
+        saved = []
+        try:
+            src = os.path.join(tmp, 'src'); bld = os.path.join(tmp, 'bld')
+            os.makedirs(src); os.makedirs(os.path.join(bld, 'meson-private')); os.makedirs(os.path.join(bld, 'meson-info')); os.makedirs(os.path.join(bld, 'meson-logs'))
+            with open(os.path.join(src, 'meson.build'), 'w') as f: f.write("project('p')\n")
+            o1 = options_with('1')
+            M.cmdline.write_cmd_line_file(bld, o1)
+            has_ini = choose(2, 'a machine file copy in meson-private') == 1
+            if has_ini:
+                with open(os.path.join(bld, 'meson-private', 'meson_native_file.ini'), 'w') as f: f.write('[binaries]\n')
+            for rel in ('meson-private/coredata.dat', 'build.ninja', 'meson-info/intro-targets.json', 'meson-logs/meson-log.txt', '.gitignore', '.hgignore', 'CACHEDIR.TAG'):
+                with open(os.path.join(bld, rel), 'w') as f: f.write('x')
+            step = [0]; kill_at = sym_int('kill_at', 1, 40); log = []
+
+            def tick(what):
+                step[0] += 1; log.append(what)
+                if step[0] <= 40 and decide(eq(kill_at, step[0])): raise Killed(what)
+
+            def wrap(mod, name, what):
+                real = getattr(mod, name)
+                def w(*a, **k):
+                    tick(what + ' ' + os.path.basename(str(a[0])) if a else what)
+                    return real(*a, **k)
+                saved.append((mod, name, real)); setattr(mod, name, w)
+            fake_shutil = types.SimpleNamespace(**{n: getattr(shutil, n) for n in dir(shutil) if not n.startswith('_')})
+            saved.append((msetup, 'shutil', msetup.shutil)); msetup.shutil = fake_shutil
+            wrap(fake_shutil, 'copy', 'backup'); wrap(fake_shutil, 'move', 'restore')
+            wrap(mesonlib, 'windows_proof_rmtree', 'rmtree'); wrap(mesonlib, 'windows_proof_rm', 'rm')
+            real_open = open
+            def fopen(name, mode='r', **k):
+                if 'w' in mode: tick('write ' + os.path.basename(str(name)))
+                return real_open(name, mode, **k)
+            saved.append((msetup, 'open', msetup.__dict__.get('open', Patched))); msetup.open = fopen
+
+            def wipe_cmd():
+                o = options_with(None)
+                o.builddir = bld; o.sourcedir = src; o.wipe = True; o.reconfigure = False
+                app = msetup.MesonApp(o)
+                return o
+            killed = False
+            try:
+                wipe_cmd()
+            except Killed:
+                killed = True
+            n_steps = step[0]
+            if not killed:
+                assume(n_steps < 40); cover('completed')
+            else:
+                cover('killed')
+            observe('steps', n_steps)
+            # ---- recovery: the same command again, no kill
+            kill_at = 10 ** 6; step[0] = 10 ** 3
+            try:
+                o2 = wipe_cmd()
+            except (M.ME, SystemExit):
+                check(False, 'the recovery command (setup --wipe again) is not refused'); return
+            except Killed:
+                raise
+            val = o2.cmd_line_options.get(M.WL)
+            check(val == '1', 'after the recovery the recorded command line still names the value from before the interrupted --wipe')
+            check(os.path.isfile(M.cmdline.get_cmd_line_file(bld)), 'the recorded command line is back in place')
+            if has_ini: check(os.path.isfile(os.path.join(bld, 'meson-private', 'meson_native_file.ini')), 'the private machine-file copy is back in place')
+        finally:
+            for mod, name, val in reversed(saved):
+                if val is Patched: delattr(mod, name)
+                else: setattr(mod, name, val)
+            shutil.rmtree(tmp, ignore_errors=True)
+    return h
+
+
+def classify_wipe(label, inputs):
+    return label
+
+
 def obligations(tier):
     out = []
     for c in ('configure', 'reconfigure', 'first-setup'):
         out.append(Obligation('kill[%s]' % c, ob_kill(c), dict(command=c, kill_step='symbolic 1..60 (every step of the command)', interrupted_write='every prefix'),
                               labels=('killed', 'completed', 'loaded') + (('regenerated',) if c == 'first-setup' else ()), optional_labels=('regenerated',), max_paths=200000, path_timeout=120))
+    out.append(Obligation('kill[wipe]', ob_kill_wipe(), dict(real='msetup.MesonApp.__init__ (validate_dirs, backup, read_cmd_line_file, removal, add_ignore_files, restore) on a scratch directory', kill_step='symbolic 1..40 (every mutating call)',
+                          recovery='the same command again'), labels=('killed', 'completed'), classify=classify_wipe, max_paths=100000, path_timeout=120))
     out.append(Obligation('failed-reconfigure', ob_failed_reconfigure(), dict(earlier_successful_saves='0..3', rollback='the except-branch of MesonApp._generate, mirrored'), labels=('first-setup', 'rolled-back')))
     out.append(Obligation('setup-command', ob_setup_command(), dict(real='msetup.MesonApp._generate', recorded='Interpreter, Build, build.save, backend, cmdline.*, mintro, os.replace/unlink/path.exists', failing_stage=STAGES, first_invocation='symbolic', prev_exists='symbolic'), labels=('completed', 'failed-before-dump', 'rolled-back')))
     out.append(Obligation('validate-dirs', ob_validate_dirs(), dict(real='msetup.MesonApp.validate_dirs / validate_core_dirs / add_ignore_files on a scratch directory', left_behind='0-3 ignore files (last possibly empty), meson-private / -logs / -info, coredata.dat', command='meson setup, --reconfigure iff configured'), labels=('empty', 'partial', 'configured')))
